@@ -73,6 +73,11 @@ pub struct LinkCfg {
     pub err_at: Option<(u64, ErrKind)>,
     /// The n-th (0-based) `sendmsg` call on this link fails, and every later one.
     pub fail_write_call: Option<(u64, ErrKind)>,
+    /// After a successful `sendmsg`/`recvmsg` the future may report `Pending` once before handing
+    /// out its result (a preemption right after the system call; cooperative-budget runtimes do
+    /// exactly this), seeded per call.
+    #[serde(default)]
+    pub yield_after_io: bool,
 }
 
 impl Default for LinkCfg {
@@ -88,6 +93,7 @@ impl Default for LinkCfg {
             eof_at: None,
             err_at: None,
             fail_write_call: None,
+            yield_after_io: false,
         }
     }
 }
@@ -511,13 +517,36 @@ fn creds(cfg: &SockCfg) -> ConnectionCredentials {
 struct ReadFut<'a> {
     link: &'a Link,
     buf: &'a mut [u8],
+    held: Option<io::Result<(usize, Vec<OwnedFd>)>>,
+}
+
+impl Link {
+    fn post_io_yield(&self) -> bool {
+        let on = self.st.lock().unwrap().cfg.yield_after_io;
+        if on && self.world.choose("py", 3) == 1 {
+            self.world.count("fault.yield_after_io");
+            true
+        } else {
+            false
+        }
+    }
 }
 
 impl Future for ReadFut<'_> {
     type Output = io::Result<(usize, Vec<OwnedFd>)>;
     fn poll(self: Pin<&mut Self>, cx: &mut Context<'_>) -> Poll<Self::Output> {
         let this = self.get_mut();
-        this.link.poll_read(this.buf, cx)
+        if let Some(r) = this.held.take() {
+            return Poll::Ready(r);
+        }
+        match this.link.poll_read(this.buf, cx) {
+            Poll::Ready(Ok(r)) if r.0 > 0 && this.link.post_io_yield() => {
+                this.held = Some(Ok(r));
+                cx.waker().wake_by_ref();
+                Poll::Pending
+            }
+            other => other,
+        }
     }
 }
 
@@ -525,19 +554,31 @@ struct WriteFut<'a, 'b> {
     link: &'a Link,
     data: &'a [u8],
     fds: &'a [BorrowedFd<'b>],
+    held: Option<io::Result<usize>>,
 }
 
 impl Future for WriteFut<'_, '_> {
     type Output = io::Result<usize>;
     fn poll(self: Pin<&mut Self>, cx: &mut Context<'_>) -> Poll<Self::Output> {
-        self.link.poll_write(self.data, self.fds, cx)
+        let this = self.get_mut();
+        if let Some(r) = this.held.take() {
+            return Poll::Ready(r);
+        }
+        match this.link.poll_write(this.data, this.fds, cx) {
+            Poll::Ready(Ok(n)) if this.link.post_io_yield() => {
+                this.held = Some(Ok(n));
+                cx.waker().wake_by_ref();
+                Poll::Pending
+            }
+            other => other,
+        }
     }
 }
 
 #[async_trait::async_trait]
 impl ReadHalf for SimRead {
     async fn recvmsg(&mut self, buf: &mut [u8]) -> io::Result<(usize, Vec<OwnedFd>)> {
-        ReadFut { link: &self.core.rx, buf }.await
+        ReadFut { link: &self.core.rx, buf, held: None }.await
     }
 
     fn can_pass_unix_fd(&self) -> bool {
@@ -563,7 +604,7 @@ impl WriteHalf for SimWrite {
         if !fds.is_empty() && !self.cfg.can_pass_fd {
             return Err(io::Error::new(io::ErrorKind::InvalidInput, "fds not supported"));
         }
-        WriteFut { link: &self.core.tx, data: buffer, fds }.await
+        WriteFut { link: &self.core.tx, data: buffer, fds, held: None }.await
     }
 
     async fn close(&mut self) -> io::Result<()> {
@@ -593,7 +634,7 @@ impl RawEnd {
     /// Read whatever is available (at least one byte); `Ok(empty)` = EOF.
     pub async fn read(&self) -> io::Result<(Vec<u8>, Vec<OwnedFd>)> {
         let mut buf = vec![0u8; 65536];
-        let (n, fds) = ReadFut { link: &self.rx, buf: &mut buf }.await?;
+        let (n, fds) = ReadFut { link: &self.rx, buf: &mut buf, held: None }.await?;
         buf.truncate(n);
         Ok((buf, fds))
     }
